@@ -632,6 +632,58 @@ def do_typed(case, res: Result, lines, impl):
         impl.append(f"res={r} handed={handed} orig={'same' if e0.data is data else 'changed'}")
 
 
+def do_typed_seq(case, res: Result):
+    """ONE predicate object offered a sequence of events (same identifier, same timestamp — foreign events may repeat an
+    identifier — and different data): what it does with each event must be what a fresh predicate does with that event
+    alone (evaluate is a function of the event; nothing learnt from an earlier event may be used for a later one)."""
+    dtype = DTYPES[case['dtype']]
+    vals = {**VALUES, **OUTSIDE}
+    subtype, cast, kind = case['subtype'], case['cast'], case['kind']
+    kw = {}
+    if not subtype:
+        kw['subtype'] = False
+    if not cast:
+        kw['cast'] = False
+
+    def observe(pred, log, e):
+        log.clear()
+        try:
+            r = pred.evaluate(e, BoboHistory({}))
+        except Exception as ex:      # noqa
+            r = 'raise ' + type(ex).__name__
+        return r, [(('orig' if x is e else 'copy'), d, type(d).__name__) for x, d in log]
+
+    log = []
+    shared = BoboPredicateCallType(lambda e, h: (log.append((e, e.data)), case['ret'])[1], dtype, **kw)
+    for k, vn in enumerate(case['values']):
+        e = mk_event(kind, vals[vn])
+        got = observe(shared, log, e)
+        flog = []
+        fresh = BoboPredicateCallType(lambda e, h: (flog.append((e, e.data)), case['ret'])[1], dtype, **kw)
+        want = observe(fresh, flog, e)
+        def same(a, b):
+            return a[0] == b[0] and len(a[1]) == len(b[1]) and all(
+                x[0] == y[0] and x[2] == y[2] and (x[1] == y[1] or (x[1] != x[1] and y[1] != y[1])) for x, y in zip(a[1], b[1]))
+        if not same(got, want):
+            got = (got[0], [(a, repr(d), t) for a, d, t in got[1]])
+            want = (want[0], [(a, repr(d), t) for a, d, t in want[1]])
+            res.violations.append(Violation(
+                'typed-stateful', f"BoboPredicateCallType(dtype={case['dtype']}, subtype={subtype}, cast={cast}) offered the events "
+                f"{case['values']} ({kind!r}, same identifier): on event {k} (data {vn}) it gave result/function-calls {got}, a fresh "
+                f"predicate gives {want}", {'part': 'typed-seq', **case}))
+            break
+    res.add_case({'part': 'typed-seq', **case}, nontrivial=True)
+    res.count('typed_seq')
+
+
+def typed_seq_cases(rng, count):
+    names = list(VALUES)
+    for dn in DTYPES:
+        for _ in range(count):
+            yield {'part': 'typed-seq', 'dtype': dn, 'values': [rng.choice(names) for _ in range(rng.randint(2, 4))],
+                   'subtype': rng.random() < 0.7, 'cast': rng.random() < 0.85, 'kind': rng.choice('sca'), 'ret': rng.random() < 0.7}
+
+
 def typed_cases():
     for dn in DTYPES:
         for vn in list(VALUES) + list(OUTSIDE):
@@ -683,6 +735,8 @@ def run_item(rp, ctx: Ctx, res: Result, lines, impl):
         do_raw_pattern(rp['name'], [tuple(c == '1' for c in f) for f in rp['flags']], res, lines, impl, accepted)
     elif part == 'typed':
         do_typed(rp, res, lines, impl)
+    elif part == 'typed-seq':
+        do_typed_seq({k: v for k, v in rp.items() if k != 'part'}, res)
     elif part == 'stream':
         o = rp['origin']
         if o['part'] == 'builder':
@@ -784,6 +838,8 @@ def run(ctx: Ctx) -> Result:
         do_typed(case, res, lines, impl)
         n += 1
     compare(res, ctx, lines, impl, 'typed', n)
+    for case in typed_seq_cases(ctx.rng, 400 if ctx.thorough else 60):
+        do_typed_seq({k: v for k, v in case.items() if k != 'part'}, res)
     res.exhaustive = True
     res.notes.append('observation: followed_by_any / not_followed_by_any wrap callables IN the caller\'s list (the list is rewritten in '
                      'place); the blocks hold their own tuple, so later edits of the list do not reach them (checked), and the rewritten '
